@@ -230,7 +230,13 @@ pub fn minimize(case: &Case, sig: &str, ctx: &Ctx) -> Case {
     if !reproduces(case, sig, ctx) {
         return case.clone();
     }
-    if let Case::W3(_) = case {
+    if let Case::W4 { .. } = case {
+        return minimize_w4(case, sig, ctx);
+    }
+    if let Case::W8 = case {
+        return case.clone();
+    }
+    if let Case::W3(_) | Case::W6(_) | Case::W7(_) = case {
         let cur = shrink_leaves(case, sig, ctx);
         return cur;
     }
@@ -245,4 +251,65 @@ pub fn minimize(case: &Case, sig: &str, ctx: &Ctx) -> Case {
     cur = shrink_leaves(&cur, sig, ctx);
     cur = ddmin_ops(&cur, sig, ctx);
     cur
+}
+
+fn minimize_w4(case: &Case, sig: &str, ctx: &Ctx) -> Case {
+    let Case::W4 { scripts, schedule } = case else { return case.clone() };
+    let mut scripts = scripts.clone();
+    let mut schedule = schedule.clone();
+    // drop whole arenas
+    let mut i = 0;
+    while scripts.len() > 1 && i < scripts.len() {
+        let mut t = scripts.clone();
+        t.remove(i);
+        let c = Case::W4 { scripts: t.clone(), schedule: schedule.clone() };
+        if reproduces(&c, sig, ctx) {
+            scripts = t;
+        } else {
+            i += 1;
+        }
+    }
+    // shrink each arena's op list
+    for a in 0..scripts.len() {
+        let mut chunk = scripts[a].ops.len().max(1) / 2;
+        while chunk >= 1 {
+            let mut i = 0;
+            while i < scripts[a].ops.len() {
+                let mut t = scripts.clone();
+                let end = (i + chunk).min(t[a].ops.len());
+                t[a].ops.drain(i..end);
+                let c = Case::W4 { scripts: t.clone(), schedule: schedule.clone() };
+                if reproduces(&c, sig, ctx) {
+                    scripts = t;
+                } else {
+                    i += chunk;
+                }
+            }
+            if chunk == 1 {
+                break;
+            }
+            chunk /= 2;
+        }
+    }
+    // shorten the schedule
+    let mut chunk = schedule.len().max(1) / 2;
+    while chunk >= 1 {
+        let mut i = 0;
+        while i < schedule.len() {
+            let mut t = schedule.clone();
+            let end = (i + chunk).min(t.len());
+            t.drain(i..end);
+            let c = Case::W4 { scripts: scripts.clone(), schedule: t.clone() };
+            if reproduces(&c, sig, ctx) {
+                schedule = t;
+            } else {
+                i += chunk;
+            }
+        }
+        if chunk == 1 {
+            break;
+        }
+        chunk /= 2;
+    }
+    Case::W4 { scripts, schedule }
 }
